@@ -191,7 +191,7 @@ class Gen:
                     w = unlock(c)
                 lines.append("will %d %s" % (c, w)); wills[c].append(w); self.stats["wills"] += 1
                 self.stats["will_text" if kinds[c] == "T" else "will_bin"] += 1
-            elif x < 0.25 and len(wills[c]) < 3 and c != subject:
+            elif x < 0.25 and len(wills[c]) < 3 and c != subject and (c not in inited or r.random() < 0.1):
                 w = lock(c, key=next(fresh), timeout=0, expried=30, count=0) if r.random() < 0.6 else unlock(c)
                 lines.append("will %d %s" % (c, w)); wills[c].append(w); self.stats["wills"] += 1
             elif x < 0.55:
@@ -226,7 +226,7 @@ class Gen:
                         lines.append("init %d %d" % (nc, x2)); inited[nc] = x2
                         self.stats["reconnect_same_id" if x2 == same else "reconnect_other_id"] += 1
             else:
-                cb = [d for d in live if kinds[d] == "B"]
+                cb = [d for d in live if kinds[d] == "B" and (not wills[d] or r.random() < 0.1)]
                 if cb:
                     d = r.choice(cb)
                     x2 = r.choice(cids)
@@ -416,7 +416,7 @@ def monitor(case, lines):
     viol = []
     steps = parse_steps(lines)
     acts = [l.split() for l in case[1:] if l != "end"]
-    kinds, issuer, announced, wills, closed_at = {}, {}, {}, collections.defaultdict(list), {}
+    kinds, issuer, announced, wills, closed_at, ever = {}, {}, {}, collections.defaultdict(list), {}, {}
     key_mentions = collections.Counter()
     for a in acts:
         if a[0] in ("req", "will"):
@@ -436,6 +436,7 @@ def monitor(case, lines):
             pass
         elif a[0] == "init":
             announced[c] = int(a[2])
+            ever.setdefault(c, set()).add(int(a[2]))
         elif a[0] == "req":
             if kinds[c] == "B":
                 issuer[a[3]] = c
@@ -464,7 +465,7 @@ def monitor(case, lines):
                     viol.append(("misroute:zero-client-id",
                                  "connection %d (registered client id %s) received the answer (result %d) to request %s of connection %d, which never sent INIT and was closed at step %d"
                                  % (to, announced.get(to), fr["res"], fr["req"], src, closed_at[src]), i))
-                elif announced.get(to) != announced[src]:
+                elif announced[src] not in ever.get(to, ()):
                     viol.append(("misroute:other-client-id", "frame for request %s of closed connection %d (client id %s) delivered to %d (client id %s)"
                                  % (fr["req"], src, announced[src], to, announced.get(to)), i))
         # ---- wills: never before the close
